@@ -12,6 +12,7 @@ import JSV.Proofs.InvLater
 import JSV.Proofs.InvVocab
 import JSV.Proofs.ResDraft
 import JSV.Proofs.ResLater
+import JSV.Proofs.ResVocab
 import JSV.Proofs.DflVal
 import JSV.Props.C01
 import JSV.Proofs.SpecLawsScope
@@ -410,6 +411,25 @@ theorem draft7_vocabulary_spec (env : Spec.Env) (hd : env.draft = .d7) : ∀ fue
 theorem draft2020_vocabulary_spec (env : Spec.Env) (hd : env.draft = .d2020) : ∀ fuel scope s j,
     Spec.evalFuel { env with st := env.st.map Inv.eraseNon2020 } fuel scope s j = Spec.evalFuel env fuel scope s j :=
   Inv.evalFuel_non2020 env hd
+
+/-- **Draft-07 Resolve ignores `$anchor` and `$dynamicAnchor`.**  resolveURIs registers the two under 2020-12 only
+    (draft-07 spells a plain-name anchor `"$id": "#name"`).  Erasing both from every schema object of the store changes no
+    outcome of Schema.Resolve (`Go.resolve`: the same success / error / panic / fuel, the same tables — in particular the
+    same `anchors` — and the same Loader calls), when the top document is read under draft-07 and every Loader document
+    declares no `$schema` or a draft-07 one (`LoaderDeclares`: a loaded 2020-12 document keeps its anchors).  With
+    `draft7_ignores_dynamicRef` this covers the three 2020-12-only keywords of `Inv.eraseNon7` that hold no subschema and
+    that Resolve could read; the others either hold subschemas, which Resolve walks whatever the draft (see the section
+    header), or are read by the evaluation alone (`minContains`, `maxContains`, `dependentRequired`). -/
+theorem draft7_resolve_ignores_anchors (renv : Go.Env) (hload : RDraft.LoaderDeclares renv .d7) (fuel : Nat)
+    (root : NodeId) (base : String) (htop : Spec.topDraft renv root = .d7) :
+    Go.resolve { renv with st := renv.st.map Inv.eraseAnchors } fuel root base = Go.resolve renv fuel root base :=
+  RVocab.resolve_erase renv hload fuel root base htop
+
+/-- a self-contained document (no Loader): the hypothesis on the Loader is void -/
+theorem draft7_resolve_ignores_anchors_noloader (renv : Go.Env) (hl : renv.loader = none) (fuel : Nat) (root : NodeId)
+    (base : String) (htop : Spec.topDraft renv root = .d7) :
+    Go.resolve { renv with st := renv.st.map Inv.eraseAnchors } fuel root base = Go.resolve renv fuel root base :=
+  draft7_resolve_ignores_anchors renv (by intro tbl k r h; rw [hl] at h; cases h) fuel root base htop
 
 /-! ### the vocabulary table
 
@@ -1022,5 +1042,30 @@ example : (Go.resolve (renvOf #[{ schema := d20URI, vocabulary := some [("https:
 example : (Go.resolve (renvOf #[{ schema := d20URI, items := some 1, itemsArray := some [2] }, {}, {}]) 3 0 "").isOk = false := by
   decide +kernel
 example : (Go.resolve (renvOf #[{ schema := d20URI, items := some 1 }, {}, {}]) 3 0 "").isOk = true := by decide +kernel
+
+/-! #### `$anchor` under draft-07 (Schema.Resolve) -/
+
+/-- `{"$schema": S, "$ref": "#a", "definitions": {"x": {"$anchor": "a"}}}`: under 2020-12 the reference resolves to
+    `/definitions/x`; under draft-07 `$anchor` registers nothing and the reference dangles … -/
+def anchorStore (schemaURI : String) : Store := #[
+  { schema := schemaURI, ref := "#a", definitions := some [("x", 1)] }, { anchor := "a" } ]
+example : ((Go.resolve (renvOf (anchorStore d20URI)) 3 0 "").bind fun rs =>
+    .ok (rs.infos.map fun e => (e.1, e.2.resolvedRef))) = .ok [(0, some 1), (1, none)] := by decide +kernel
+example : (Go.resolve (renvOf (anchorStore d7URI)) 3 0 "").isOk = false := by decide +kernel
+/-- … as it does in the document without `$anchor` (`draft7_resolve_ignores_anchors` applied), under both drafts: the
+    hypothesis `topDraft = .d7` cannot be dropped -/
+example : (anchorStore d7URI).map Inv.eraseAnchors = #[{ schema := d7URI, ref := "#a", definitions := some [("x", 1)] }, {}] := by
+  simp [anchorStore, Inv.eraseAnchors]
+example (fuel : Nat) (base : String) :
+    Go.resolve { renvOf (anchorStore d7URI) with st := (anchorStore d7URI).map Inv.eraseAnchors } fuel 0 base
+      = Go.resolve (renvOf (anchorStore d7URI)) fuel 0 base :=
+  draft7_resolve_ignores_anchors_noloader (renvOf (anchorStore d7URI)) rfl fuel 0 base (by decide +kernel)
+example : (Go.resolve (renvOf #[{ schema := d20URI, ref := "#a", definitions := some [("x", 1)] }, {}]) 3 0 "").isOk = false := by
+  decide +kernel
+/-- the draft-07 spelling: `{"$id": "#a"}` is the anchor there (and refused under 2020-12) -/
+example : ((Go.resolve (renvOf #[{ schema := d7URI, ref := "#a", definitions := some [("x", 1)] }, { id := "#a" }]) 3 0 "").bind
+    fun rs => .ok (rs.infos.map fun e => (e.1, e.2.resolvedRef))) = .ok [(0, some 1), (1, none)] := by decide +kernel
+example : (Go.resolve (renvOf #[{ schema := d20URI, ref := "#a", definitions := some [("x", 1)] }, { id := "#a" }]) 3 0 "").isOk
+    = false := by decide +kernel
 
 end JSV.C02
